@@ -2,6 +2,7 @@
 package main
 
 import (
+	"math"
 	"encoding/json"
 	"math/rand"
 
@@ -26,6 +27,18 @@ func (x *ad) Reset(s json.RawMessage) error {
 	x.spare = nil
 	x.held = heldAll(x.l)
 	return nil
+}
+
+// idx maps the specification's Lo / Hi to the extreme ints
+func idx(op core.Op, i int) int {
+	v := core.ArgInt(op, i)
+	switch v {
+	case -2000000000:
+		return math.MinInt
+	case 2000000000:
+		return math.MaxInt
+	}
+	return v
 }
 
 func nodeRes(e *listz.SNode[int]) []interface{} {
@@ -66,7 +79,7 @@ func (x *ad) Apply(op core.Op) (interface{}, error) {
 		}
 		return []int{}, nil
 	case "InsertAt":
-		i, v := core.ArgInt(op, 0), core.ArgInt(op, 1)
+		i, v := idx(op, 0), core.ArgInt(op, 1)
 		if e := x.fresh(v); e != nil {
 			x.l.InsertNodeAt(i, e)
 		} else {
@@ -74,9 +87,9 @@ func (x *ad) Apply(op core.Op) (interface{}, error) {
 		}
 		return []int{}, nil
 	case "Get":
-		return nodeRes(x.l.Get(core.ArgInt(op, 0))), nil
+		return nodeRes(x.l.Get(idx(op, 0))), nil
 	case "Remove":
-		e := x.l.Remove(core.ArgInt(op, 0))
+		e := x.l.Remove(idx(op, 0))
 		r := nodeRes(e)
 		if e != nil {
 			x.spare = e
@@ -90,7 +103,7 @@ func (x *ad) Apply(op core.Op) (interface{}, error) {
 		}
 		return r, nil
 	case "Swap":
-		x.l.Swap(core.ArgInt(op, 0), core.ArgInt(op, 1))
+		x.l.Swap(idx(op, 0), idx(op, 1))
 		return []int{}, nil
 	}
 	panic("unknown op " + op.N)
